@@ -504,14 +504,12 @@ def main(ctx):
         i, (name, num, kw) = item
         return sim(name, num, 24, ctx.seed * 100 + 17 + i, workers=2, **kw)
 
-    with concurrent.futures.ThreadPoolExecutor(max_workers=4) as ex:
-        f_mc = [ex.submit(one, it) for it in runs]
-        f_sim = [ex.submit(one_sim, it) for it in enumerate(sims)]
-        # the tree-walking layer (specs/SftpIO/SftpTree.tla)
+    with concurrent.futures.ThreadPoolExecutor(max_workers=5) as ex:
+        # the tree-walking layer (specs/SftpIO/SftpTree.tla); longest job first
         f_tree = {
             'all': ex.submit(tree_tlc, 'all', TREE_INVS,
                              workers=2 if quick else 6,
-                             seed=ctx.seed + 3, NFlags=110 if quick else 0),
+                             seed=ctx.seed + 3, NFlags=80 if quick else 0),
             'lstat': ex.submit(tree_tlc, 'lstat', ['SizeFromTarget'],
                                SizeFromLstat='TRUE'),
             'skip': ex.submit(tree_tlc, 'skip', ['ErrorsReported'],
@@ -520,6 +518,8 @@ def main(ctx):
                               seed=ctx.seed + 5, Emit='TRUE',
                               NTrees=800 if quick else 15000),
         }
+        f_mc = [ex.submit(one, it) for it in runs]
+        f_sim = [ex.submit(one_sim, it) for it in enumerate(sims)]
         results = [f.result() for f in f_mc]
         sim_out = [f.result() for f in f_sim]
         tree_res = {k: f.result() for k, f in f_tree.items()}
